@@ -1485,7 +1485,7 @@ func checkHybridWhole(c *Ctx, r *Report) {
 	if _, done := r.rules["S-HYBRIDW"]; done {
 		return
 	}
-	r.Rule("S-HYBRIDW", "HybridBinarizer.calculateBlackPoints and HybridBinarizer.GetBlackMatrix folded whole on images of 43x41 and 40x48 pixels made of textured, flat light, flat dark and nearly flat regions, and on a 40x40 chequer with flat blocks at, one below and one above the neighbours' black point and blocks whose range is 25 by one grey level, and compared with the method written out plainly: blocks of 8x8 at min(8k, size-8); a block's black point is its mean, or for a range of at most 24 - minimum and maximum taken over the rows up to the first one after which the range exceeds 24 - half its minimum, raised to (above + 2*left + above-left)/4 when the minimum lies below that; a pixel is black when it is <= the mean of the 5x5 black points around the block (centre kept 2 away from the edges); the matrix is width x height and every one of its bits is compared", 6)
+	r.Rule("S-HYBRIDW", "HybridBinarizer.calculateBlackPoints and HybridBinarizer.GetBlackMatrix folded whole on images of 43x41, 48x45 and 45x48 pixels (neither, only the width, only the height a multiple of the block size) made of textured, flat light, flat dark and nearly flat regions, and on a 40x40 chequer with flat blocks at, one below and one above the neighbours' black point and blocks whose range is 25 by one grey level, and compared with the method written out plainly: blocks of 8x8 at min(8k, size-8); a block's black point is its mean, or for a range of at most 24 - minimum and maximum taken over the rows up to the first one after which the range exceeds 24 - half its minimum, raised to (above + 2*left + above-left)/4 when the minimum lies below that; a pixel is black when it is <= the mean of the 5x5 black points around the block (centre kept 2 away from the edges); the matrix is width x height and every one of its bits is compared", 8)
 	u8 := types.Typ[types.Uint8]
 	image := func(W, H int64) []int64 {
 		pix := make([]int64, W*H)
@@ -1627,7 +1627,7 @@ func checkHybridWhole(c *Ctx, r *Report) {
 		r.AnchorLost("S-HYBRIDW", "gozxing.HybridBinarizer", "calculateBlackPoints or GetBlackMatrix not found")
 		return
 	}
-	for _, d := range [][2]int64{{43, 41}, {40, 48}, {40, 40}} {
+	for _, d := range [][2]int64{{43, 41}, {48, 45}, {45, 48}, {40, 40}} {
 		W, H := d[0], d[1]
 		pix := image(W, H)
 		subW, subH := (W+7)/8, (H+7)/8
@@ -1744,4 +1744,121 @@ func checkHybridWhole(c *Ctx, r *Report) {
 	r.RelaxCountWhen("S-PIXMAP", "S-HYBRIDW", "S-GHBW")
 	r.DecidedByKeys("S-THRESH", "S-HYBRIDW", "the local method folded whole on two images: every black point and every bit compared",
 		"HybridBinarizer.thresholdBlock/compare", "calculateBlackPoints/blackpoint")
+}
+
+// S-ESTIMATOR: the black-point estimator folded on grey histograms against the method written out, ties included.
+func checkBlackPointEstimator(c *Ctx, r *Report) {
+	r.Rule("S-ESTIMATOR", "GlobalHistogramBinarizer.estimateBlackPoint folded on 80 histograms of 32 buckets (two and three humps of varied heights and distances, flat stretches, equal peaks, and valleys whose scores tie) and compared with the method written out: the tallest bucket (the first of equals), the second peak by count times squared distance (the first of equals), too little contrast when the two peaks are at most 2 buckets apart, otherwise the valley between them that maximises (distance from the black peak) squared times distance to the white peak times (tallest count minus the valley's count), searched from the white peak downwards so that of equal scores the one nearer the white peak wins; the result is the valley's bucket times 8", 1)
+	fd, p := c.funcDeclOf("", "GlobalHistogramBinarizer.estimateBlackPoint")
+	key := "gozxing.GlobalHistogramBinarizer.estimateBlackPoint/grey"
+	if fd == nil {
+		r.AnchorLost("S-ESTIMATOR", key, "method not found")
+		return
+	}
+	r.Analysed(key)
+	ref := func(b []int64) (int64, bool) {
+		n := int64(len(b))
+		var maxCount, firstPeak, firstSize int64
+		for x := int64(0); x < n; x++ {
+			if b[x] > firstSize {
+				firstPeak, firstSize = x, b[x]
+			}
+			if b[x] > maxCount {
+				maxCount = b[x]
+			}
+		}
+		var secondPeak, secondScore int64
+		for x := int64(0); x < n; x++ {
+			d := x - firstPeak
+			if s := b[x] * d * d; s > secondScore {
+				secondPeak, secondScore = x, s
+			}
+		}
+		if firstPeak > secondPeak {
+			firstPeak, secondPeak = secondPeak, firstPeak
+		}
+		if secondPeak-firstPeak <= n/16 {
+			return 0, false
+		}
+		best, bestScore := secondPeak-1, int64(-1)
+		for x := secondPeak - 1; x > firstPeak; x-- {
+			f := x - firstPeak
+			if s := f * f * (secondPeak - x) * (maxCount - b[x]); s > bestScore {
+				best, bestScore = x, s
+			}
+		}
+		return best << 3, true
+	}
+	var hists [][]int64
+	hump := func(h []int64, at, height, spread int64) {
+		for d := -spread; d <= spread; d++ {
+			if x := at + d; x >= 0 && x < 32 {
+				v := height - (height*abs64(d))/(spread+1)
+				if v > h[x] {
+					h[x] = v
+				}
+			}
+		}
+	}
+	for i := int64(0); i < 60; i++ {
+		h := make([]int64, 32)
+		hump(h, (i*5)%13, 40+(i*7)%50, 1+i%3)
+		hump(h, 18+(i*3)%14, 30+(i*11)%60, 1+(i/3)%3)
+		if i%4 == 0 {
+			hump(h, 12+(i%5), 20+(i*13)%30, 1)
+		}
+		for x := range h {
+			h[x] += (i*int64(x) + i/2) % 3
+		}
+		hists = append(hists, h)
+	}
+	// ties: a flat valley floor between two equal peaks; valley candidates with equal scores; equal first peaks;
+	// the row 0 x8, 7, 28, 47, 40 x7 of the seeded change C17-18 (buckets 0, 3, 5 hold 9, 1 and 8 pixels)
+	for _, spec := range [][][2]int64{
+		{{2, 50}, {20, 50}}, {{2, 50}, {20, 50}, {10, 5}, {11, 5}, {12, 5}}, {{0, 9}, {3, 1}, {5, 8}}, {{0, 9}, {3, 1}, {5, 8}, {4, 1}},
+		{{4, 30}, {4 + 3, 30}}, {{4, 30}, {4 + 2, 30}}, {{1, 10}, {31, 10}}, {{1, 10}, {31, 10}, {16, 10}}, {{0, 8}, {1, 1}, {2, 1}, {3, 1}, {4, 1}, {5, 1}, {6, 8}},
+		{{3, 12}, {9, 12}, {15, 12}, {21, 12}}, {{10, 100}, {11, 99}, {30, 2}}, {{10, 100}, {13, 1}}, {{31, 60}, {0, 1}}, {{15, 1}}, {},
+		{{5, 20}, {25, 20}, {10, 7}, {20, 7}}, {{5, 20}, {25, 20}, {10, 7}, {15, 9}, {20, 7}}, {{0, 1}, {31, 1}}, {{7, 1000}, {12, 999}, {17, 998}}, {{6, 3}, {9, 3}, {8, 3}, {7, 3}},
+	} {
+		h := make([]int64, 32)
+		for _, e := range spec {
+			h[e[0]] = e[1]
+		}
+		hists = append(hists, h)
+	}
+	bad := ""
+	for _, hist := range hists {
+		buckets := &Val{K: VList}
+		for _, v := range hist {
+			buckets.L = append(buckets.L, vint(v))
+		}
+		h := &rpf{unroll: 1000, env: map[types.Object]*Val{}}
+		h.callHook = errCtorHook
+		if ro := recvObj(p, fd); ro != nil {
+			h.env[ro] = &Val{K: VStruct, Ptr: true, Fields: map[string]*Val{}}
+		}
+		res, err := c.rpfCall(fd, p, []*Val{buckets}, h)
+		want, ok := ref(hist)
+		switch {
+		case err != nil:
+			bad = "?" + err.Error()
+		case len(res) != 2:
+			bad = "estimateBlackPoint does not return (black point, error)"
+		case !ok && res[1].K == VNil:
+			bad = fmt.Sprintf("histogram %v: a black point %s is returned, the method finds too little contrast", hist, res[0])
+		case ok && (res[1].K != VNil || !res[0].isInt() || res[0].I != want):
+			bad = fmt.Sprintf("histogram %v: the result is (%s, %s), the method gives %d", hist, res[0], res[1], want)
+		}
+		if bad != "" {
+			break
+		}
+	}
+	reportFold(r, c, "S-ESTIMATOR", key, fd.Pos(), bad)
+}
+
+func abs64(x int64) int64 {
+	if x < 0 {
+		return -x
+	}
+	return x
 }
